@@ -304,7 +304,7 @@ def main(argv=None):
             json.dump(ev, f, indent=1, sort_keys=True, default=repr)
     if a.dump:
         with open(a.dump, 'w') as f:
-            json.dump({str(k): v for k, v in sorted(agg['digests'].items())}, f)
+            json.dump({str(k): v for k, v in sorted(agg['digests'].items(), key=lambda kv: str(kv[0]))}, f)
 
     # ---- verdict
     print('runs=%d blocks=%d/%d nontrivial=%d distinct=%d io_steps=%d faults=%s wall=%.1fs'
